@@ -87,7 +87,7 @@ impl tx3_tir::compile::Compiler for Compiler {
 
         self.latest_tx_body = Some(compiled_tx.transaction_body);
 
-        let size_fees = ops::eval_size_fees(&payload, &self.pparams, self.config.extra_fees);
+        let size_fees = ops::eval_size_fees(&payload, &self.pparams, self.config.extra_fees)?;
 
         //let redeemer_fees = eval_redeemer_fees(tx, pparams)?;
 
